@@ -610,6 +610,11 @@ async fn explore_run(
         apply(&mut w, pid, &c, &mut budget, &mut counts).await;
         taken.push(c);
         let nk = explore_key(&w, pid, budget, &counts);
+        // models with a backward `next` jump run for ever: third instances are not explored
+        if w.tasks(pid).iter().any(|t| t.0.1 > 2) {
+            visited.insert(nk);
+            break;
+        }
         if visited.contains(&nk) {
             // an edge into known territory: recorded, nothing new behind it
             break;
